@@ -10,7 +10,7 @@ use axum::{
     routing::{get, get_service, post},
     Json, Router,
 };
-use easy_error::{ensure, Error};
+use easy_error::{ensure, Error, ResultExt};
 use futures::StreamExt;
 use prometheus::{
     register_histogram_vec, register_int_counter_vec, Encoder, HistogramVec, IntCounterVec,
@@ -68,6 +68,13 @@ fn default_history_size() -> usize {
 
 impl MetricsServer {
     pub fn init(&mut self) -> Result<(), Error> {
+        // what the router and the header layer would otherwise only find out by panicking at start
+        ensure!(
+            self.api_prefix.starts_with('/') && !self.api_prefix.contains('*'),
+            "apiPrefix must start with '/' and must not contain '*': {}",
+            self.api_prefix
+        );
+        HeaderValue::from_str(&self.cors).context("cors is not a valid header value")?;
         if let Some(ui) = &self.ui {
             #[cfg(feature = "embedded-ui")]
             if ui == "<embedded>" {
@@ -106,12 +113,10 @@ impl MetricsServer {
             .layer(TraceLayer::new_for_http());
         // .fallback(not_found.into_service());
 
+        let server = axum::Server::try_bind(&self.bind).context("metrics bind")?;
         tokio::spawn(async move {
             info!("metrics server listening on {}", self.bind);
-            axum::Server::bind(&self.bind)
-                .serve(root.into_make_service())
-                .await
-                .unwrap();
+            server.serve(root.into_make_service()).await.unwrap();
         });
 
         Ok(())
